@@ -1802,18 +1802,36 @@ func firstSet(a, b string) string {
 func findChildren(parentEl *etree.Element, childNS string, childTag string) ([]*etree.Element, error) {
 	//nolint:prealloc // We don't know how many child elements we'll actually put into this array.
 	var rv []*etree.Element
+	var parentCtx *etreeutils.NSContext
 	for _, childEl := range parentEl.ChildElements() {
 		if childEl.Tag != childTag {
 			continue
 		}
 
-		ctx, err := etreeutils.NSBuildParentContext(childEl)
-		if err != nil {
-			return nil, err
+		// The namespace context of the parent is built once, on first use, and consulted unless the
+		// child (re)declares something itself: building it anew for every matching child made the
+		// time quadratic in what an unauthenticated sender writes (declarations on the ancestors
+		// times children of the name looked for).
+		if parentCtx == nil {
+			ctx, err := etreeutils.NSBuildParentContext(parentEl)
+			if err != nil {
+				return nil, err
+			}
+			ctx, err = ctx.SubContext(parentEl)
+			if err != nil {
+				return nil, err
+			}
+			parentCtx = &ctx
 		}
-		ctx, err = ctx.SubContext(childEl)
-		if err != nil {
-			return nil, err
+		ctx := *parentCtx
+		for _, attr := range childEl.Attr {
+			if attr.Space == "xmlns" || (attr.Space == "" && attr.Key == "xmlns") {
+				var err error
+				if ctx, err = parentCtx.SubContext(childEl); err != nil {
+					return nil, err
+				}
+				break
+			}
 		}
 
 		ns, err := ctx.LookupPrefix(childEl.Space)
